@@ -216,8 +216,8 @@ func rollReplayOne(r *hx.Result, c *rrCase, dir string) {
 				return "", false
 			}
 			return ev.label, true
-		case <-time.After(3 * time.Second):
-			viol("writer-stalled", "%s: writer %d reached no instrumentation point and did not return within 3 s (parked at %s before)", what, w, pcs[w])
+		case <-time.After(8 * time.Second):
+			viol("writer-stalled", "%s: writer %d reached no instrumentation point and did not return within 8 s (parked at %s before)", what, w, pcs[w])
 			return "", false
 		}
 	}
@@ -273,13 +273,13 @@ func rollReplayOne(r *hx.Result, c *rrCase, dir string) {
 			curDir = dir
 		case "stop":
 			steps = append(steps, "stop")
-			if ret, p := hx.Within(3*time.Second, func() { app.Stop() }); !ret || p != nil {
+			if ret, p := hx.Within(8*time.Second, func() { app.Stop() }); !ret || p != nil {
 				viol("stop-failed:rolling", "%s: Stop returned=%v panic=%v", what, ret, p)
 			}
 		case "start":
 			steps = append(steps, "start")
 			var serr error
-			if ret, p := hx.Within(3*time.Second, func() { serr = app.Start() }); !ret || p != nil || serr != nil {
+			if ret, p := hx.Within(8*time.Second, func() { serr = app.Start() }); !ret || p != nil || serr != nil {
 				viol("start-failed:rolling", "%s: Start returned=%v panic=%v err=%v", what, ret, p, serr)
 			}
 		}
@@ -306,7 +306,7 @@ func rollReplayOne(r *hx.Result, c *rrCase, dir string) {
 	go func() { wg.Wait(); close(done) }()
 	select {
 	case <-done:
-	case <-time.After(3 * time.Second):
+	case <-time.After(8 * time.Second):
 		if !failed {
 			viol("writer-stalled", "writers did not finish after the replay")
 		}
